@@ -61,7 +61,7 @@ ASSUMPTIONS = [
 ]
 BOUND = {
     "quick": "shapes {1..4}^3 + (5,1,1),(7,1,1),(1,1,6),(2,3,7),(6,6,6) "
-    "[69 shapes, N mod 6 and N mod 3 all covered] x 3 value patterns (+1 "
+    "[69 shapes, N mod 6 and N mod 3 all covered] x 4 value patterns (one with other legal number spellings; +1 "
     "seed-chosen extra pattern) x 3 origins x 3 spacings (one with skewed axes) x 11 atom lists (digit chain ids, touching fixed-column fields) x 2 "
     "DX styles through the API; 7 atom lists x 2 patterns per shape through "
     "main.dx_to_cube",
@@ -105,7 +105,7 @@ QUICK_SPACINGS = ["0.5", "aniso", "skew"]
 THOROUGH_ORIGINS = QUICK_ORIGINS + ["sub", "huge"]
 THOROUGH_SPACINGS = QUICK_SPACINGS + ["1.25", "fine"]
 
-QUICK_PATTERNS = ["mag", "index", "round"]
+QUICK_PATTERNS = ["mag", "index", "round", "spelled"]
 EXTRA_PATTERNS = ["extreme", "ulp", "plain"]
 STYLES = ["apbs", "bare"]
 
@@ -168,6 +168,14 @@ def value_string(pattern, i, j, k):
         # neighbours differ by exactly one unit of the printed last digit
         m = 100000 + c
         return f"{sign}{m // 100000}.{m % 100000:05d}0e+00"
+    if pattern == "spelled":
+        # other legal spellings of a number at the start of a data line:
+        # explicit plus sign (C %+e), no digit before the point
+        if c % 3 == 0:
+            return "+%.6e" % (0.125 * (c + 1))
+        if c % 3 == 1:
+            return f"-.{(c % 97) + 1:02d}5"
+        return f".{(c % 89) + 1:02d}25"
     if pattern == "plain":
         # non-exponent notation as other DX writers produce
         if c == 0:
